@@ -32,6 +32,19 @@ SUBSET
                `Except PyErr`; the function then returns `Except FV.Disc.PyErr T`.
                An effect under `and/or`/a conditional expression operand is not supported (except `return a if c else b`).
 
+NAME RESOLUTION  is Python's or nothing: a translated function / method / property / constant / class must be bound exactly
+               once in its scope (Python takes the LAST binding — a second `def`, an assignment, an import of the same name,
+               a star import, `global`, `globals()`/`exec` make it untranslatable); the builtins the translator interprets
+               (max, min, abs, float, isinstance, …) and `math` must not be re-bound in the module or an enclosing function;
+               a class must be plain (no bases, metaclass, `__getattr__`-like hooks) and must not be patched from outside its
+               body anywhere in the file (`Rectangle.is_inside = …`, `setattr(Rectangle, …)`).  Patching from OTHER files
+               is not looked for.  Attribute assignment is accepted only on a local bound to a fresh object (the result of
+               a call such as `self.duplicate()`), never on a parameter or an alias: the tie statement is about return
+               values and says nothing about the final state of the arguments.
+  trusted leaves `Point` (constructor, x/y accessors) must match POINT_EXPECTED statement for statement, `Shape` /
+               `BoundingBox` must be plain dataclasses with exactly the table's fields; otherwise every function whose
+               generated definition mentions them is `untranslatable: trusted leaf changed`.
+
 SEMANTIC CHOICES (documented because they are trusted)
   * literals: an integral literal `n` (also `2.0`) is `((n : Nat) : α)`; a non-integral decimal literal `p/q` (exactly,
     from the source text) is `((p : Nat) : α) / ((q : Nat) : α)` — at `Float` this is the correctly rounded quotient of two
@@ -87,6 +100,57 @@ MODEL_RECORD = {
                       "KW_REGION": "_region"},
     }
 }
+# names the translator interprets itself: a module that re-binds one of them is outside the subset
+INTERPRETED = ("max", "min", "abs", "float", "isinstance", "int", "bool", "str", "tuple", "True", "False", "None")
+HOOKS = ("__getattr__", "__getattribute__", "__setattr__", "__delattr__", "__init_subclass__", "__class_getitem__",
+         "__new__")
+
+# trusted leaf: `Point` is read as a plain record (x, y).  Its constructor and accessors must have exactly this shape
+# (annotations, docstrings and comments aside); anything else makes every function that uses a Point untranslatable.
+POINT_EXPECTED = '''
+class Point:
+    def __init__(self, x=None, y=None):
+        if x is None:
+            self.x, self.y = 0, 0
+        elif y is None:
+            if isinstance(x, Point):
+                self.x, self.y = x.x, x.y
+            elif isinstance(x, tuple):
+                self.x, self.y = x
+            else:
+                self.x, self.y = x, x
+        else:
+            assert isinstance(x, (int, float)) and isinstance(y, (int, float))
+            self.x, self.y = x, y
+
+    @property
+    def x(self):
+        return self._x
+
+    @x.setter
+    def x(self, value):
+        self._x = value
+
+    @property
+    def y(self):
+        return self._y
+
+    @y.setter
+    def y(self, value):
+        self._y = value
+'''
+
+
+def _shape_of(fn: ast.FunctionDef) -> str:
+    """a function up to annotations and docstring: decorators, parameter names, defaults, body."""
+    body = [st for st in fn.body if not (isinstance(st, ast.Expr) and isinstance(st.value, ast.Constant)
+                                          and isinstance(st.value.value, str))]
+    a = fn.args
+    return "|".join([",".join(ast.dump(d) for d in fn.decorator_list), ",".join(x.arg for x in a.args),
+                     ",".join(ast.dump(d) for d in a.defaults), str(bool(a.vararg or a.kwarg or a.kwonlyargs)),
+                     ";".join(ast.dump(st) for st in body)])
+
+
 CLASS_TY = {"Rectangle": "Rect", "Point": "Point", "Shape": "Shape", "BoundingBox": "BoundingBox"}
 TY_CLASS = {v: k for k, v in CLASS_TY.items()}
 
@@ -182,6 +246,7 @@ class Translator:
         self.fns: dict[tuple, Fn] = {}
         self.order: list[Fn] = []
         self.busy: set = set()
+        self.scopes: dict = {}
         self.tmp = 0
 
     # ---- source access
@@ -196,6 +261,121 @@ class Translator:
                 raise Untranslatable(f"cannot read/parse {rel}: {ex}")
         return self.files[rel]
 
+    def scope(self, rel: str) -> dict:
+        """module-level bindings of a file: how often each name is bound (def / class / import / assignment / del /
+        `global` re-binding anywhere), whether there is a star import, and which `Name.attr` are assigned anywhere in
+        the file (`Rectangle.is_inside = …`, `setattr(Rectangle, …)` → (`Rectangle`, `*`))."""
+        if rel in self.scopes:
+            return self.scopes[rel]
+        mod = self.module(rel)
+        counts: dict = {}
+        info = {"counts": counts, "star": False, "patched": set()}
+
+        def bind(name):
+            counts[name] = counts.get(name, 0) + 1
+
+        def top(stmts):
+            for st in stmts:
+                if isinstance(st, (ast.FunctionDef, ast.AsyncFunctionDef, ast.ClassDef)):
+                    bind(st.name)
+                elif isinstance(st, ast.Import):
+                    for a in st.names:
+                        bind((a.asname or a.name).split(".")[0])
+                elif isinstance(st, ast.ImportFrom):
+                    for a in st.names:
+                        if a.name == "*":
+                            info["star"] = True
+                        else:
+                            bind(a.asname or a.name)
+                else:
+                    for n in ast.walk(st):
+                        if isinstance(n, ast.Name) and isinstance(n.ctx, (ast.Store, ast.Del)):
+                            bind(n.id)
+                        elif isinstance(n, (ast.FunctionDef, ast.AsyncFunctionDef, ast.ClassDef)):
+                            bind(n.name)
+                        elif isinstance(n, (ast.Import, ast.ImportFrom)):
+                            top([n])
+        top(mod.body)
+        for n in ast.walk(mod):          # anywhere in the file
+            if isinstance(n, ast.Global):
+                for name in n.names:
+                    bind(name)
+            elif isinstance(n, ast.Attribute) and isinstance(n.ctx, (ast.Store, ast.Del)) and isinstance(n.value, ast.Name):
+                info["patched"].add((n.value.id, n.attr))
+            elif isinstance(n, ast.Call) and isinstance(n.func, ast.Name) and n.func.id in ("setattr", "delattr") \
+                    and n.args and isinstance(n.args[0], ast.Name):
+                info["patched"].add((n.args[0].id, "*"))
+            elif isinstance(n, ast.Call) and isinstance(n.func, ast.Name) and n.func.id in ("globals", "vars", "exec", "eval"):
+                info["star"] = True       # dynamic re-binding cannot be excluded
+        self.scopes[rel] = info
+        return info
+
+    def once(self, rel: str, name: str):
+        """`name` must be bound exactly once at module level of `rel` (Python takes the LAST binding; a second one, or a
+        star import that may hide it, is outside the subset)."""
+        sc = self.scope(rel)
+        if sc["counts"].get(name, 0) != 1 or sc["star"]:
+            raise Untranslatable(f"{name} is bound {sc['counts'].get(name, 0)} times in {rel}"
+                                 + (" (star import / dynamic globals)" if sc["star"] else ""))
+
+    def unshadowed(self, rel: str, name: str, enclosing=()):
+        """an interpreted builtin must not be re-bound in the module (or in an enclosing function)."""
+        sc = self.scope(rel)
+        if sc["counts"].get(name, 0) or sc["star"] or name in enclosing:
+            raise Untranslatable(f"builtin {name} is re-bound in {rel}")
+
+    def class_ok(self, rel: str, cls: str, member: str | None = None):
+        """the class is a plain class (no bases / metaclass / attribute hooks), and `member` is not re-bound from outside
+        (`Cls.member = …`, `setattr(Cls, …)`) in its own file."""
+        rel2 = self.class_file(rel, cls)
+        node = self.resolve_class(rel2, cls)
+        self.once(rel2, cls)
+        if rel2 != rel:
+            self.once(rel, cls)
+        decos = [ast.unparse(d) for d in node.decorator_list]
+        if node.bases or node.keywords or (decos and decos != ["dataclass"]):
+            raise Untranslatable(f"class {cls} has bases / a metaclass / decorators")
+        for st in node.body:
+            if isinstance(st, ast.FunctionDef) and st.name in HOOKS:
+                raise Untranslatable(f"class {cls} defines {st.name}")
+        for r in {rel, rel2}:
+            pat = self.scope(r)["patched"]
+            if (cls, "*") in pat or (member is not None and (cls, member) in pat):
+                raise Untranslatable(f"{cls}.{member or '*'} is re-bound outside the class body in {r}")
+
+    def check_leaves(self, rel: str, text: str):
+        """trusted leaves used by a generated definition must still have the expected source shape."""
+        if "FV.Tie.Point" in text:
+            try:
+                self.class_ok(rel, "Point")
+                node = self.resolve_class(rel, "Point")
+                want = {}
+                for st in ast.parse(POINT_EXPECTED).body[0].body:
+                    want.setdefault(st.name, []).append(_shape_of(st))
+                have = {}
+                for st in node.body:
+                    if isinstance(st, ast.FunctionDef) and st.name in want:
+                        have.setdefault(st.name, []).append(_shape_of(st))
+                    elif not isinstance(st, ast.FunctionDef):
+                        for n in ast.walk(st):
+                            if isinstance(n, ast.Name) and isinstance(n.ctx, ast.Store) and n.id in ("x", "y", "__init__"):
+                                raise Untranslatable("Point: class-level binding of " + n.id)
+                if have != want:
+                    bad = [k for k in want if have.get(k) != want[k]]
+                    raise Untranslatable(f"Point.{bad[0]} is not the plain record member the translator assumes")
+                pat = self.scope(self.class_file(rel, "Point"))["patched"]
+                if any(c == "Point" for c, _ in pat):
+                    raise Untranslatable("Point is patched outside its class body")
+            except Untranslatable as ex:
+                raise Untranslatable(f"trusted leaf changed: {ex}")
+        for cls in DATACLASSES:
+            if RECORDS[cls][0] in text:
+                try:
+                    self.class_ok(rel, cls)
+                    self.check_dataclass(rel, cls)
+                except Untranslatable as ex:
+                    raise Untranslatable(f"trusted leaf changed: {ex}")
+
     def find_def(self, rel: str, qual: str, accessor: str = "get"):
         """the FunctionDef for `f` or `Class.f` (for a property: the getter, or the setter with accessor='set')."""
         mod = self.module(rel)
@@ -208,8 +388,14 @@ class Translator:
                 raise Untranslatable(f"{p} not found in {rel}")
             cls = outer if isinstance(outer, ast.ClassDef) else None      # a nested function has no class
             body = outer.body
+        name = parts[-1]
+        if len(parts) == 1:
+            self.once(rel, name)
+        elif cls is not None:
+            self.class_ok(rel, cls.name, name)
+        found = []
         for n in body:
-            if isinstance(n, ast.FunctionDef) and n.name == parts[-1]:
+            if isinstance(n, ast.FunctionDef) and n.name == name:
                 decos = [ast.unparse(d) for d in n.decorator_list]
                 is_setter = any(d.endswith(".setter") for d in decos)
                 if (accessor == "set") == is_setter:
@@ -217,23 +403,39 @@ class Translator:
                             else "setter" if is_setter else "method" if cls is not None else "function")
                     if any(d not in ("property", "staticmethod") and not d.endswith(".setter") for d in decos):
                         raise Untranslatable(f"{qual}: decorator {decos}")
-                    return n, kind
-        raise Untranslatable(f"{qual} not found in {rel}")
+                    found.append((n, kind))
+            elif not isinstance(n, ast.FunctionDef):      # any other binding of the name in this scope
+                for m in ast.walk(n):
+                    if (isinstance(m, ast.Name) and isinstance(m.ctx, (ast.Store, ast.Del)) and m.id == name) or \
+                            (isinstance(m, (ast.FunctionDef, ast.ClassDef)) and m.name == name) or \
+                            (isinstance(m, (ast.Import, ast.ImportFrom))
+                             and any((a.asname or a.name).split(".")[0] == name for a in m.names)):
+                        raise Untranslatable(f"{qual}: {name} is also bound by another statement of its scope")
+        if len(found) > 1:
+            raise Untranslatable(f"{qual}: defined {len(found)} times (Python takes the last definition)")
+        if not found:
+            raise Untranslatable(f"{qual} not found in {rel}")
+        return found[0]
 
     def resolve_name(self, rel: str, name: str):
         """module-level name (followed through `from m import name`): ('const', file, value node) | ('def', file, name)."""
         mod = self.module(rel)
         for n in mod.body:
             if isinstance(n, ast.FunctionDef) and n.name == name:
+                self.once(rel, name)
                 return ("def", rel, name)
             if isinstance(n, ast.Assign) and len(n.targets) == 1 and isinstance(n.targets[0], ast.Name) \
                     and n.targets[0].id == name:
+                self.once(rel, name)
                 return ("const", rel, n.value)
             if isinstance(n, ast.ImportFrom) and n.level == 0 and any((a.asname or a.name) == name for a in n.names):
+                self.once(rel, name)
                 orig = next(a.name for a in n.names if (a.asname or a.name) == name)
                 rel2 = n.module.replace(".", "/") + ".py"
                 if os.path.exists(os.path.join(self.repo, rel2)):
                     return self.resolve_name(rel2, orig)
+        if self.scope(rel)["counts"].get(name):
+            raise Untranslatable(f"{name} is bound in {rel} by a statement the translator does not read")
         return None
 
     def check_dataclass(self, rel: str, cls: str):
@@ -340,6 +542,17 @@ class Translator:
         cls = qual.split(".")[-2] if "." in qual else None
         if cls is not None and cls not in CLASS_TY and kind == "function":
             cls = None                                      # nested function: `outer.inner`
+        self.enclosing = set()
+        if "." in qual and cls is None or expr_target is not None:      # names bound in the enclosing function(s)
+            outer = self.module(rel)
+            for p in (qual.split(".") if expr_target is not None else qual.split(".")[:-1]):
+                outer = next(n for n in outer.body if isinstance(n, (ast.FunctionDef, ast.ClassDef)) and n.name == p)
+                if isinstance(outer, ast.FunctionDef):
+                    self.enclosing |= {a.arg for a in outer.args.args}
+                    self.enclosing |= {n.id for n in ast.walk(outer)
+                                       if isinstance(n, ast.Name) and isinstance(n.ctx, (ast.Store, ast.Del))}
+                    self.enclosing |= {n.name for n in ast.walk(outer)
+                                       if isinstance(n, (ast.FunctionDef, ast.ClassDef)) and n is not outer}
         if expr_target is not None:
             return self.translate_expr(rel, qual, node, free, expr_target, lean_name)
         a = node.args
@@ -401,6 +614,7 @@ class Translator:
             rty = f"(Option {rty})" if self.mode.monad == "Option" else f"(Except FV.Disc.PyErr {rty})"
         body = ctx.render(ir, "  ")
         text = f"def {fn.lean} {' '.join(binders)} : {rty} :=\n  {body}\n"
+        self.check_leaves(rel, text)
         # defaults as separate constants (so that a tie statement can mention them)
         for p, d in fn.defaults.items():
             try:
@@ -419,6 +633,7 @@ class Ctx:
 
     def __init__(self, tr: Translator, fn: Fn, rel: str, cls: str | None):
         self.tr, self.fn, self.rel, self.cls = tr, fn, rel, cls
+        self.enclosing = set(getattr(tr, "enclosing", ()))
         self.needs: set = set()
         self.effect = False
         self.deps: list = []
@@ -524,13 +739,18 @@ class Ctx:
         lets = []       # (lean name, code)
         env = dict(env)
 
-        def bind_target(t, e: E):
+        def bind_target(t, e: E, fresh=False):
             if isinstance(t, ast.Name):
                 lets.append((lname(t.id), e.code))
                 env[t.id] = e.ty
+                env["@fresh"] = (env.get("@fresh", frozenset()) | {t.id}) if fresh else \
+                    (env.get("@fresh", frozenset()) - {t.id})
             elif isinstance(t, ast.Attribute) and isinstance(t.value, ast.Name) and t.value.id in env:
                 obj = t.value.id
                 oty = env[obj]
+                if obj not in env.get("@fresh", frozenset()):
+                    # the tie statement says nothing about the state of the arguments: no mutation of a parameter / alias
+                    self.fail(st, f"attribute assignment on {obj}, which is not a local bound to a fresh object (call result)")
                 cls = TY_CLASS.get(oty)
                 if cls not in MODEL_RECORD:
                     self.fail(st, f"attribute assignment on {oty}")
@@ -549,14 +769,14 @@ class Ctx:
                 tmps = []
                 for v in value.elts:          # all right-hand sides first
                     e = self.value(self.expr(v, env, binds))
-                    if isinstance(v, (ast.Name, ast.Constant)):
+                    if isinstance(v, ast.Constant):
                         tmps.append(e)
                     else:
                         nm = self.fresh("rhs")
                         lets.append((nm, e.code))
                         tmps.append(E(nm, e.ty))
-                for t, e in zip(target.elts, tmps):
-                    bind_target(t, e)
+                for t, e, v in zip(target.elts, tmps, value.elts):
+                    bind_target(t, e, isinstance(v, ast.Call))
             else:
                 e = self.value(self.expr(value, env, binds))
                 if not (isinstance(e.ty, tuple) and e.ty[0] == "Tup" and len(e.ty) - 1 == n):
@@ -568,7 +788,7 @@ class Ctx:
                     bind_target(t, E(proj, e.ty[1 + i]))
         else:
             e = self.value(self.expr(value, env, binds))
-            bind_target(target, e)
+            bind_target(target, e, isinstance(value, ast.Call))
         ir = self.block(rest, env)
         for nm, code in reversed(lets):
             ir = ("let", nm, code, ir)
@@ -811,13 +1031,24 @@ class Ctx:
         chain = self.dotted(n)
         if chain and chain[0] not in env:
             if len(chain) == 3 and (chain[0], chain[1]) in ENUMS and chain[2] in ENUMS[(chain[0], chain[1])]:
+                self.tr.class_ok(self.rel, chain[0], chain[1])
                 return E(ENUMS[(chain[0], chain[1])][chain[2]], LOC)
             if chain == ["math", "pi"] and self.tr.mode.ops:
+                self.math_ok(n)
                 self.needs.add("Fops")
                 return E("Fops.pi", S)
             self.fail(n, f"unknown attribute chain {'.'.join(chain)}")
         obj = self.expr(n.value, env, binds)
         return self.getattr(obj, n.attr, binds, n)
+
+    def math_ok(self, node):
+        """`math` must be the module bound once by `import math` and nothing in this file may assign `math.x`."""
+        self.tr.once(self.rel, "math")
+        mod = self.tr.module(self.rel)
+        if not any(isinstance(st, ast.Import) and any(a.name == "math" and a.asname is None for a in st.names)
+                   for st in mod.body) or "math" in self.enclosing \
+                or any(c == "math" for c, _ in self.tr.scope(self.rel)["patched"]):
+            self.fail(node, "`math` is not (only) the module imported by `import math`")
 
     def getattr(self, obj: E, attr: str, binds, node) -> E:
         t = obj.ty
@@ -879,9 +1110,19 @@ class Ctx:
         dstar = [k for k in n.keywords if k.arg is None]
         # constructor of the model record: Rectangle(**{KW_…: e, …})
         if isinstance(f, ast.Name) and f.id in MODEL_RECORD and f.id not in env:
+            self.tr.class_ok(self.rel, f.id, "__init__")
+            if f.id in self.enclosing:
+                self.fail(n, f"{f.id} is re-bound in an enclosing function")
             return self.construct(f.id, n, env, binds)
         if dstar:
             self.fail(n, "** argument")
+        if isinstance(f, ast.Name) and f.id in INTERPRETED + tuple(RECORDS) + tuple(MODEL_RECORD) and f.id not in env:
+            if f.id in INTERPRETED:
+                self.tr.unshadowed(self.rel, f.id, self.enclosing)
+            else:
+                self.tr.class_ok(self.rel, f.id)
+                if f.id in self.enclosing:
+                    self.fail(n, f"{f.id} is re-bound in an enclosing function")
         if isinstance(f, ast.Name) and f.id == "isinstance" and f.id not in env and len(n.args) == 2:
             want = n.args[1]
             names = [ast.unparse(w) for w in (want.elts if isinstance(want, ast.Tuple) else [want])]
@@ -924,11 +1165,13 @@ class Ctx:
             chain = self.dotted(f)
             if chain and chain[0] not in env:
                 if len(chain) == 2 and (chain[0], chain[1]) in CLASS_PARAMS and not pos and not kws:
+                    self.tr.find_def(self.tr.class_file(self.rel, chain[0]), f"{chain[0]}.{chain[1]}")   # unique, unpatched
                     x = CLASS_PARAMS[(chain[0], chain[1])]
                     self.needs.add(x)
                     return E(x, S)
                 if len(chain) == 2 and chain[0] == "math" and self.tr.mode.ops and not kws \
                         and all(a.ty == S for a in pos):
+                    self.math_ok(n)
                     self.needs.add("Fops")
                     code = " ".join([f"Fops.{chain[1]}"] + [a.code for a in pos])
                     if chain[1] in self.tr.mode.raising_ops:
